@@ -82,7 +82,7 @@ def showLookup : Res (Option (Nat × Tok × Nat)) → String
   | .ok none => "-"
   | .ok (some (i, t, c)) => s!"{i}/{showTok t}/{c}"
 
-def handle (toks : List String) : String :=
+def handleMap (toks : List String) : String :=
   match toks with
   | ["map.dec", nsrc, nn, m, r] =>
     let rb := if r = "none" then [] else parseHex r
@@ -133,6 +133,10 @@ def handle (toks : List String) : String :=
         let c := if t.rng && t.dl = q.1 then Lookup.satAdd t.sc (q.2 - t.dc) else t.sc
         s!"{i}/{showTok t}/{c}"))
     s!"{out}\t{spec}\t1"
+  | _ => "bad-op\t-\t0"
+
+def handleMisc (toks : List String) : String :=
+  match toks with
   | ["relpath", b, t] =>
     let base := parseHex b
     let target := parseHex t
@@ -144,6 +148,29 @@ def handle (toks : List String) : String :=
     let spec := if !ordinary then "-" else if good then s!"ok {toHex out}" else "does-not-resolve"
     s!"ok {toHex out}\t{spec}\t1"
   | _ => "bad-op\t-\t0"
+
+def handleVlq (toks : List String) : String :=
+  match toks with
+  | ["vlq.enc", xs] =>
+    let m := showRes toHex (Vlq.encodeSeg (parseInts xs))
+    s!"{m}\t=\t1"
+  | ["vlq.dec", hx] =>
+    let bs := parseHex hx
+    let m := showRes showInts (Vlq.parseVlq bs)
+    match Vlq.toDigits bs with
+    | some ds => if fits63 ds then s!"{m}\t{showRes showInts (Vlq.specVlq ds)}\t1" else s!"{m}\t-\t1"
+    | none => s!"{m}\t-\t1"
+  | ["vlq.range", lo, hi] => s!"{vlqRange (parseInt lo) (parseInt hi)}\t=\t1"
+  | _ => "bad-op\t-\t0"
+
+/-- dispatch on the op family (the prefix before the first dot) -/
+def handle (toks : List String) : String :=
+  match toks.head? with
+  | none => "bad-op\t-\t0"
+  | some op =>
+    if op.startsWith "vlq." then handleVlq toks
+    else if op.startsWith "map." then handleMap toks
+    else handleMisc toks
 
 partial def loop (h : IO.FS.Stream) (out : IO.FS.Stream) : IO Unit := do
   let line ← h.getLine
